@@ -139,6 +139,31 @@ def run(ctx):
         exps.append(exp)
     units.append((SRC_UN, cfgs))
     oracle.append(exps)
+    # arithmetic on narrowed operands whose result is narrowed again (a cast may only be dropped where the low byte of the result cannot depend on the high bytes)
+    NEST = [('((x is byte) / 2) is byte', lambda x, y, w: ((x & 255) // 2) & 255), ('((x is byte) % 7) is byte', lambda x, y, w: ((x & 255) % 7) & 255), ('((x is byte) * 3) is byte', lambda x, y, w: ((x & 255) * 3) & 255),
+            ('(-(x is byte)) is byte', lambda x, y, w: (-(x & 255)) & 255), ('((x is byte) + (y is byte)) is byte', lambda x, y, w: ((x & 255) + (y & 255)) & 255), ('((x is byte) - 1) is byte', lambda x, y, w: ((x & 255) - 1) & 255),
+            ('((x is byte) / ((y is byte) + 1)) is byte', lambda x, y, w: ((x & 255) // ((y & 255) + 1)) & 255), ('((x + y) is byte) / 3', lambda x, y, w: ((x + y) & 255) // 3), ('(((x is byte) / 2) is byte) is int + 1000', lambda x, y, w: sgn((((x & 255) // 2) & 255) + 1000, w)),
+            ('((x is byte) % ((y is byte) + 1)) is bool', None)]
+    body = '    byte h = (x is byte) / 2; write(h is int); write(\' \'); byte m = (x is byte) % 7; write(m is int); write(\' \');\n'
+    for e, f in NEST:
+        if f is not None:
+            body += '    write((%s) is int); write(\' \');\n' % e
+    SRC_NEST = ('empty @is_you(const int[] zs) {\n  int n = zs.length / 2;\n  for (int i = 0; i < n; i += 1) {\n    int x = zs[i]; int y = zs[n + i];\n' + body + "    write(';');\n  }\n}\n")
+    cfgs, exps = [], []
+    for w in ws:
+        g = grid(w, rng, 4 if q else 40) + [266, 256, 512, 300, 511, -266]
+        pairs = [(a, rng.choice(g)) for a in g]
+        exp = b''
+        for x, y in pairs:
+            exp += str(((x & 255) // 2) & 255).encode() + b' ' + str(((x & 255) % 7) & 255).encode() + b' '
+            for e, f in NEST:
+                if f is not None:
+                    exp += str(f(x, y, w)).encode() + b' '
+            exp += b';'
+        cfgs.append(Cfg(tuple(str(a) for a, _ in pairs) + tuple(str(b) for _, b in pairs), w, 400, False))
+        exps.append(exp)
+    units.append((SRC_NEST, cfgs))
+    oracle.append(exps)
     # casts and unary operators as CONDITIONS (if / while / for / not / and / or / defeat argument): the branch lowering strips
     # some cast wrappers and must still truncate / test exactly what the value lowering does
     CONDS = [('x is byte', lambda x, w: (x & 255) != 0), ('(x is byte) is int', lambda x, w: (x & 255) != 0), ('((x is byte) is int) is bool', lambda x, w: (x & 255) != 0),
